@@ -160,6 +160,12 @@ func (x *fnExec) staticCall(fr *frame, st *State, ci ssa.CallInstruction, res ss
 		return
 	}
 	x.atCall(fr, st, ci, key, args)
+	if x.P.CalledGhost[key] {
+		// ghost: calls of this callee are counted (the called("...") ghost compares the count with the one at entry)
+		id := calledID(key)
+		a := st.arr("X:called", BV(64))
+		st.setArr("X:called", Store(a, id, BVBin("bvadd", Select(a, id), BVU(1, 64))))
+	}
 	c := x.P.Contracts[key]
 	if key == "old" || key == "implies" {
 		panic("ghost function " + key + " called from code")
@@ -745,6 +751,9 @@ func (p *Program) effectsPass(fn *ssa.Function, e *effectSet) {
 					if f == fn {
 						continue
 					}
+					if p.CalledGhost[funcKey(f)] {
+						e.keys["X:called"] = true
+					}
 					if strings.HasPrefix(f.String(), "(*sync.Mutex).") || strings.HasPrefix(f.String(), "(*sync.RWMutex).") {
 						e.keys["X:held"] = true
 						e.keys["X:released"] = true
@@ -815,6 +824,38 @@ func (p *Program) externalWriteEffects(f *ssa.Function, cc *ssa.CallCommon, e *e
 	}
 	name := f.String()
 	switch {
+	case strings.HasPrefix(name, "sync/atomic.") || strings.HasPrefix(name, "(*sync/atomic."):
+		// atomic writes go through a pointer: the addressed field (or cell) is written
+		m := f.Name()
+		if strings.HasPrefix(m, "Load") || len(cc.Args) == 0 {
+			return
+		}
+		pre := staticAddrPrefix(cc.Args[0])
+		if pre == "?" || strings.HasPrefix(pre, "?") {
+			e.top = true
+			return
+		}
+		elemT := types.Type(nil)
+		if pt, ok := cc.Args[0].Type().Underlying().(*types.Pointer); ok {
+			elemT = pt.Elem()
+		}
+		if strings.HasPrefix(name, "(*sync/atomic.") {
+			pre += ".v"
+			if st0, ok := elemT.Underlying().(*types.Struct); ok {
+				elemT = nil
+				for i := 0; i < st0.NumFields(); i++ {
+					if st0.Field(i).Name() == "v" {
+						elemT = st0.Field(i).Type()
+					}
+				}
+			}
+		}
+		e.keys[pre] = true
+		if elemT != nil {
+			for _, l := range leaves(elemT) {
+				e.keys[pre+l.path] = true
+			}
+		}
 	case strings.Contains(name, "encoding/binary") && strings.Contains(name, "Put"),
 		strings.HasPrefix(name, "io.ReadFull"), strings.Contains(name, "rand.Read"), strings.Contains(name, "(*math/rand.Rand).Read"):
 		e.keys["E:uint8"] = true
@@ -1302,4 +1343,14 @@ func derefsReceiver(fn *ssa.Function) bool {
 	}
 	derefsRecvMemo[fn] = res
 	return res
+}
+
+// calledID: a stable 64-bit identifier of a callee key for the X:called ghost array (FNV-1a).
+func calledID(key string) *Term {
+	h := uint64(14695981039346656037)
+	for i := 0; i < len(key); i++ {
+		h ^= uint64(key[i])
+		h *= 1099511628211
+	}
+	return BVU(h, 64)
 }
